@@ -313,8 +313,17 @@ public:
       std::unique_lock<std::mutex> lock(_mutex);
       if (_shutdown)
       {
+        // Another caller has already signalled shutdown and may still be waiting for
+        // tasks and joining workers. Return only when it has finished, so that
+        // "shutdown()/stop() returned" means "every accepted task has run" for EVERY
+        // caller, not only for the first one.
         iora::core::Logger::debug("ThreadPool::shutdown() - Already shut down");
-        return; // Already shut down
+        lock.unlock();
+        while (!_shutdownComplete.load(std::memory_order_acquire))
+        {
+          std::this_thread::sleep_for(std::chrono::milliseconds(1));
+        }
+        return;
       }
       _shutdown = true;
     }
@@ -439,6 +448,7 @@ public:
       }
     }
 
+    _shutdownComplete.store(true, std::memory_order_release);
     iora::core::Logger::debug("ThreadPool::shutdown() - All " + std::to_string(joinCount) +
                               " threads joined, shutdown complete");
   }
@@ -512,6 +522,7 @@ public:
     {
       std::lock_guard<std::mutex> lock(_mutex);
       _shutdown.store(false, std::memory_order_release);
+      _shutdownComplete.store(false, std::memory_order_release);
     }
 
     _accepting.store(true, std::memory_order_release);
@@ -1184,6 +1195,7 @@ private:
   bool _workerScaling { true };
 
   std::atomic<bool> _shutdown;
+  std::atomic<bool> _shutdownComplete{false}; // the shutdown() that set _shutdown has joined every worker
   std::atomic<std::size_t> _activeThreads; // Threads actively executing tasks
   std::atomic<std::size_t> _busyThreads;   // Threads that have picked up work
 
